@@ -735,6 +735,40 @@ fn check_solo_family(prop: &str, tier: Tier, seed: u64) -> i32 {
         }
     }
 
+    // C01 / C03 / C17: systematic enumeration of the generator's decision tree from the empty stack
+    let mut tree_info = json!(null);
+    let mut tree_found: Vec<Found> = vec![];
+    if prop == "C01" || prop == "C03" || prop == "C17" {
+        let depth = std::env::var("PFSIM_TREE_DEPTH").ok().and_then(|s| s.parse().ok()).unwrap_or(match tier { Tier::Quick => 2usize, Tier::Thorough => 3 });
+        let to = engine::tree_sweep(spec.prop, depth, &known, wall_cap(tier) / 2.0);
+        tree_info = json!({"depth": to.depth, "nodes_judged": to.nodes, "exhaustive_for_depth": true,
+            "note": "every opcode-choice sequence of length <= depth from the empty stack (6 protocols, framed and unframed for P>=4, EXT/buffer enabled, argument draws fixed to the exhausted-source fallbacks), found by steering the real generator through the fuzzer-bytes seam one choice byte at a time"});
+        let n = to.nodes;
+        let mut ts = to.stats;
+        ts.evaluations = 0;
+        ts.calls = 0;
+        stats.merge(ts);
+        stats.evaluations += n;
+        stats.add("tree.nodes_judged", n);
+        tree_found = to.found;
+    }
+    // C14 soak leg: long-lived generators (one per protocol, each on its own measuring thread)
+    let mut soak_found: Vec<props::Violation> = vec![];
+    if prop == "C14" {
+        let calls = match tier { Tier::Quick => 6_000u64, Tier::Thorough => 400_000 };
+        let res: Vec<(u64, Option<props::Violation>)> = std::thread::scope(|s| {
+            let hs: Vec<_> = (0..6u8).map(|p| s.spawn(move || leak::soak(p, seed, calls))).collect();
+            hs.into_iter().map(|h| h.join().unwrap()).collect()
+        });
+        for (done, v) in res {
+            stats.add("fault.hist.soak_calls_on_long_lived_generators", done);
+            if let Some(v) = v {
+                if engine::known_match(&known, &v).is_none() {
+                    soak_found.push(v);
+                }
+            }
+        }
+    }
     // oracle self-check against CPython on a sample of outputs (pristine) and damaged variants
     let mut py: Vec<(Vec<u8>, bool)> = vec![];
     stats.py_samples.sort_by_key(|s| s.0);
@@ -770,6 +804,25 @@ fn check_solo_family(prop: &str, tier: Tier, seed: u64) -> i32 {
     };
     let (mut code, mut nviol) = report_and_exit_code(prop, &found, &stats, &known, &minimise, "scenario", Some((tier, seed, runs)));
     if code == 0 {
+        if let Some(f) = tree_found.first() {
+            let (m, tries) = engine::minimise(prop_s, &f.scenario, &f.violation.class, engine::trace_for(&spec, &f.scenario), spy, 500, 30.0);
+            let path = engine::write_replay(prop, "scenario", m.to_json(), &f.violation, true, json!({"found_by": "decision-tree enumeration", "original": f.scenario.to_json(), "minimiser_executions": tries}));
+            println!("violation class={} (decision-tree node) detail={}", f.violation.class, f.violation.detail);
+            println!("VIOLATION property={} replay={}", prop, path);
+            code = 1;
+            nviol = tree_found.len();
+        }
+    }
+    if code == 0 {
+        if let Some(v) = soak_found.first() {
+            let path = engine::write_replay(prop, "soak", json!({"verif_seed": seed.to_string(), "tier": tier.name()}), v, false, json!({}));
+            println!("violation class={} detail={}", v.class, v.detail);
+            println!("VIOLATION property={} replay={}", prop, path);
+            code = 1;
+            nviol = soak_found.len();
+        }
+    }
+    if code == 0 {
         if let Some(f) = comp_found.first() {
             let path = engine::write_replay(prop, "comp", f.case.clone(), &f.violation, true, json!({"case_index": f.index}));
             println!("violation class={} comp_case={} detail={}", f.violation.class, f.index, f.violation.detail);
@@ -792,6 +845,7 @@ fn check_solo_family(prop: &str, tier: Tier, seed: u64) -> i32 {
         extra: json!({
             "runs_requested": runs,
             "wall_cap_hit": out.capped,
+            "decision_tree_enumeration": tree_info,
             "cpython_cross_check": {"available": rep.available, "compared": rep.compared, "hard_disagreements": rep.hard.len(), "soft_disagreements_on_damaged_inputs": rep.soft.len()},
         }),
         assumptions: engine::default_assumptions(),
@@ -853,6 +907,25 @@ fn run_replay(path: &str) -> i32 {
                 1
             } else {
                 println!("not reproduced: property={} class={} (the tree no longer violates it on this input)", prop, class);
+                0
+            }
+        }
+        "soak" => {
+            let b = &doc["scenario"];
+            let seed: u64 = b["verif_seed"].as_str().and_then(|s| s.parse().ok()).unwrap_or(engine::DEFAULT_SEED);
+            let calls = if b["tier"].as_str() == Some("thorough") { 400_000u64 } else { 6_000 };
+            let mut hit = false;
+            for p in 0..6u8 {
+                if let (_, Some(v)) = leak::soak(p, seed, calls) {
+                    println!("replayed: class={} detail={}", v.class, v.detail);
+                    hit |= v.class == class;
+                }
+            }
+            if hit {
+                println!("VIOLATION property={} replay={}", prop, path);
+                1
+            } else {
+                println!("not reproduced: property={} class={}", prop, class);
                 0
             }
         }
